@@ -482,6 +482,12 @@ class Runtime:
                     raise ValueError(ret)
                 if n.get("writes"):
                     self._side_write(n["writes"], Val(nid, dig, "side"))
+                if n.get("mutates"):
+                    # a call that changes the list it was given, in place (after its own value has been fixed)
+                    for a in args:
+                        if type(a) is list:
+                            for j in range(1, len(a)):
+                                a[j] = "MUTATED"
             except BaseException as e:
                 if isinstance(e, CutError):
                     self.raised.setdefault(nid, []).append(e)
